@@ -164,11 +164,13 @@ def analyse(repo, R, taken, findings):
 
 def run(repo, R):
     R.rule("INPUTS", "the public wrapper uses its parameters as given: no path replaces one by a filtered/re-ordered/scaled/defaulted copy")
-    from ..flow import check_wrapper_inputs
+    R.rule("DISPATCH", "the wrapper assembles Cartesian, spherical, mixed and transformed results through the four assembly routes, same keywords on each")
+    from ..flow import check_wrapper_inputs, check_wrapper_dispatch
     for _w in ['gbasis.integrals.point_charge.point_charge_integral']:
         _wf = repo.func(_w)
         R.note_function(_wf.qualname)
         check_wrapper_inputs(repo, _wf, R)
+        check_wrapper_dispatch(repo, _wf, R, "DISPATCH")
     R.rule("V0", "start of the vertical recursion: (2 pi/p) F_m(p |P-C|^2) exp(-mu |A-B|^2) for every m")
     R.rule("Vv", "vertical Obara-Saika step on the shell being built, for x, y and z")
     R.rule("Vc", "primitives contracted once per shell with coefficients x (2a/pi)^(3/4)(4a)^(l/2), at Boys order 0")
